@@ -129,6 +129,15 @@ extern "C" void harness(void)
     for (int i = VF_NA; i < NT; ++i) want += cost(i);
     VCLAIM(8, vf_wevals == want, "C08.with_clauses_stop_at_first_failure_also_when_reporting");
   }
+  {
+    // a second rejected call is reported with the same detail as the first: every report is complete in itself
+    unsigned m1 = vf_first.mask, n1 = vf_first.nmask; unsigned long o1 = vf_first.nord;
+    bool threw2 = false;
+    try { m.f(x, y); } catch (vf_reported &) { threw2 = true; }
+    VCLAIM(15, threw2 && vf_nreports == 2 && vf_last.fatal, "C15.second_no_match_is_one_fatal_report");
+    VCLAIM(15, vf_last.mask == m1 && vf_last.nmask == n1 && vf_last.nord == o1, "C15.second_report_on_the_same_expectations_carries_the_same_details");
+    vf_nreports = 1; vf_nfatal = 1;
+  }
   unsigned before = vf_nreports;
   for (int i = 0; i < NT; ++i) e[i].reset();
   if (!any_sat_match) VCLAIM(4, vf_nreports == before, "C04.no_second_report_after_no_match_listing");
